@@ -1,6 +1,6 @@
 (* C13: fixed-width integer adapters emit exactly size_of bytes in the chosen byte order.
    Only statements, `exact`, and Print Assumptions live here. *)
-From PV Require Import Base MachineInt DataModel Ser De Fixint FixintFacts.
+From PV Require Import Base MachineInt DataModel Ser De Fixint FixintFacts GenFixint FixintSrc.
 Open Scope N_scope.
 
 (* a field marked le/be serialises as one try_push per byte of the integer's little/big
@@ -32,7 +32,14 @@ Example C13_example :
   in_range (ik_ity I32) (-2).
 Proof. repeat split; vm_compute; congruence. Qed.
 
+(* fixint.rs says what Fixint.v models: read from the source on every run, the `le` module goes
+   through LE<T>, whose Serialize uses to_le_bytes and whose Deserialize uses from_le_bytes, `be`
+   likewise with the big-endian pair, and the wrappers exist for exactly i16..i128, u16..u128 *)
+Theorem C13_source_is_what_is_modelled : fixint_ok = true.
+Proof. reflexivity. Qed.
+
 Print Assumptions C13_ops.
 Print Assumptions C13_bytes.
 Print Assumptions C13_length.
 Print Assumptions C13_roundtrip.
+Print Assumptions C13_source_is_what_is_modelled.
